@@ -893,7 +893,8 @@ def make_cases(ctx, tables, n_expr):
 # ------------------------------------------------------------------------------------------------------------
 # run
 # ------------------------------------------------------------------------------------------------------------
-HDR = ("From Coq Require Import ZArith List String.\nFrom V Require Import Base.Tri Model.Expr Model.SqlExpr Model.ExprCheck.\n"
+HDR = ("From Coq Require Import ZArith List String.\nFrom V Require Import Base.Tri Model.Expr Model.SqlExpr Model.ExprCheck "
+       "Model.ExprLegacy Model.ExprLegacyCheck.\n"
        "Import ListNotations.\nOpen Scope string_scope.\n")
 
 
@@ -941,10 +942,10 @@ def run(ctx: Ctx):
     ctx.regen("timespan", ttr.translate)
     from harness.translators import predicate as ptr
     ctx.regen("predicate", ptr.translate)
-    props_ok = ctx.build_props(extra_targets=["Model/ExprCheck.vo"])
+    props_ok = ctx.build_props(extra_targets=["Model/ExprCheck.vo", "Model/ExprLegacyCheck.vo"])
     if not props_ok:
         from harness.common import coq_make
-        coq_make(["Model/ExprCheck.vo"])
+        coq_make(["Model/ExprCheck.vo", "Model/ExprLegacyCheck.vo"])
 
     n_expr = 260 if ctx.quick else 2400
     ok = run_batch(ctx, n_expr)
@@ -989,6 +990,7 @@ def run_batch(ctx: Ctx, n_expr, tag="gen"):
     ctx.log(f"{tag}: {len(cases)} expressions ({ncorp} corpus), {len(qs)} implementation queries")
 
     coq_cases, coq_meta = [], []
+    leg_cases, leg_meta = [], []
     sum_cases, sum_meta = [], []
     DIMCOL = {"instrument": 0, "detector": 1, "visit": 10, "physical_filter": 12, "band": 13, "day_obs": 14, "exposure": 30, "group": 42}
     for q, res in zip(qs, results):
@@ -1022,7 +1024,14 @@ def run_batch(ctx: Ctx, n_expr, tag="gen"):
                                     f"well-typed expression rejected: {q['where']} ({res.get('msg', '')[:120]})")
                 coq_cases.append(f"(({_tname(c['scope'])}, {clist(str(COLS[k][0]) + '%N' for k in q['keycols'])}, {cexpr(c['expr'])}, None) : case)")
                 coq_meta.append(replay)
-            # legacy: "whenever they accept an expression" - a rejection is not judged here (C14)
+            # legacy: "whenever they accept an expression" - a rejection is not judged by the oracle (C14); the model of the
+            # legacy path (Model/ExprLegacy.v) must refuse exactly these
+            if api == "legacy":
+                if _legacy_modelled(c["expr"]):
+                    leg_cases.append(f"(({_tname(c['scope'])}, {clist(str(COLS[k][0]) + '%N' for k in q['keycols'])}, {cexpr(c['expr'])}, None) : case)")
+                    leg_meta.append(dict(replay, got=res))
+                else:
+                    ctx.hist("outcome", "legacy:not-modelled(unary plus)")
             continue
         got = sorted({tuple(r) for r in res["rows"]}, key=_sk)
         ctx.hist("outcome", f"{api}:rows")
@@ -1054,6 +1063,13 @@ def run_batch(ctx: Ctx, n_expr, tag="gen"):
                 ctx.hist("constraint_keys", len(res["cdi"]))
             else:
                 ctx.tie_broken("correspondence", "constraint-summary", f"unknown key in constraint_data_id {res['cdi']} for {q['where']}")
+        if api == "legacy":
+            if _legacy_modelled(c["expr"]):
+                keys = clist(ckey(k) for k in got)
+                leg_cases.append(f"(({_tname(c['scope'])}, {clist(str(COLS[k][0]) + '%N' for k in q['keycols'])}, {cexpr(c['expr'])}, Some {keys}) : case)")
+                leg_meta.append(dict(replay, got=got[:60]))
+            else:
+                ctx.hist("outcome", "legacy:not-modelled(unary plus)")
         if api == "new":
             keys = clist(ckey(k) for k in got)
             coq_cases.append(f"(({_tname(c['scope'])}, {clist(str(COLS[k][0]) + '%N' for k in q['keycols'])}, {cexpr(c['expr'])}, Some {keys}) : case)")
@@ -1069,7 +1085,15 @@ def run_batch(ctx: Ctx, n_expr, tag="gen"):
     from harness.common import COQ, sh
     tdir = COQ / "Cases" / "C05"
     tdir.mkdir(parents=True, exist_ok=True)
-    (tdir / "Tables.v").write_text(HDR + "".join(f"Definition {_tname(s)} : list row := {clist(crow(r) for r in rows)}.\n" for s, rows in tables.items()))
+    rungov = {}
+    for scope in ("flat", "vimg"):
+        for r in tables[scope]:
+            rungov.setdefault(r["run"], set()).add(r["instrument"])
+    if tag == "gen" and {k: set(v) for k, v in RUN_GOVERNORS.items()} != rungov:
+        ctx.tie_broken("harness", "fixture", f"RUN governors of the fixture {rungov} differ from the table the oracle's explanation uses")
+    runs_v = clist(f"({cstr(r)}, {clist('VStr ' + cstr(g) for g in sorted(gs))})" for r, gs in sorted(rungov.items()))
+    (tdir / "Tables.v").write_text(HDR + "".join(f"Definition {_tname(s)} : list row := {clist(crow(r) for r in rows)}.\n" for s, rows in tables.items())
+                                   + f"Definition T_runs : list (string * list value) := {runs_v}.\n")
     rc, out = sh(["timeout", "300", "coqc", "-Q", str(COQ), "V", "-w", "-notation-overridden,-deprecated", str(tdir / "Tables.v")], cwd=tdir, timeout=320)
     if rc != 0:
         ctx.tie_broken("correspondence", "tables", out[-600:])
@@ -1087,6 +1111,20 @@ def run_batch(ctx: Ctx, n_expr, tag="gen"):
             ctx.disagreement(name, {"where": m["where"], "bind": m["bind"], "target": m["target"], "coq": coq_cases[i][:300]},
                              "model (conv -> Predicate -> SQL) and implementation return different rows" if chk == "chk_case"
                              else "SQL path and documented meaning differ on an expression Coq types as well-typed")
+    # legacy interfaces against the model of the legacy path (accept/refuse + rows incl. governor pruning), and the
+    # hypotheses of legacy_agrees re-evaluated on the concrete case
+    bad_leg = ctx.coq_cases(f"{tag}_legacy", hdr, leg_cases, "chk_legacy_both T_runs", shard=250, timeout=900)
+    if bad_leg:
+        sub = [leg_cases[i] for i in bad_leg[:40]]
+        bad_lm = ctx.coq_cases(f"{tag}_legacy_model", hdr, sub, "chk_legacy T_runs", shard=250, timeout=900) or []
+        ctx.cov["programs"] -= len(sub)
+        for j, i in enumerate(bad_leg[:8]):
+            m = leg_meta[i]
+            ctx.disagreement(f"{tag}_legacy_model" if j in bad_lm else f"{tag}_legacy_doc",
+                             {"where": m["where"], "bind": m["bind"], "target": m["target"], "got": m.get("got"), "coq": leg_cases[i][-400:]},
+                             "model of the legacy path (normal form + CheckVisitor + PredicateConversionVisitor + daf_relation SQL) and "
+                             "the legacy interface differ (accepted/refused or rows)" if j in bad_lm
+                             else "legacy SQL and documented meaning differ on a case inside the fragment of legacy_agrees")
     bad_sum = ctx.coq_cases(f"{tag}_summary", hdr, sum_cases, "chk_summary", shard=400, timeout=900)
     for i in (bad_sum or [])[:5]:
         m = sum_meta[i]
@@ -1094,6 +1132,11 @@ def run_batch(ctx: Ctx, n_expr, tag="gen"):
                                             "constraint_data_id": m["constraint_data_id"]},
                          "PredicateConstraintsSummary.constraint_data_id differs from the model's summary of the same predicate")
     return True
+
+
+def _legacy_modelled(e):
+    """unary plus is transparent in the model's expression type but not on the legacy path (it yields an untyped node)"""
+    return not any(n[0] == "pos" for n in _walk(e) if n and isinstance(n[0], str))
 
 
 def _tname(scope):
